@@ -1,4 +1,7 @@
+import FrappyModel.Generated.C15
 import FrappyModel.Generated.C20
+import FrappyModel.Klass.Lifecycle
 import FrappyModel.Node.Logging
 import FrappyModel.Small.Rotate
+import FrappyModel.Spec.C15
 import FrappyModel.Spec.C20
